@@ -27,6 +27,20 @@ fn main() {
         let path = args.get(3).expect("replay file");
         std::process::exit(props::replay(id, path));
     }
+    if args[2] == "--probe" {
+        // internal: run one journaled case again in this (expendable) process
+        let path = args.get(3).expect("probe file");
+        let j: serde_json::Value = serde_json::from_str(&std::fs::read_to_string(path).expect("probe file")).expect("probe json");
+        report::install_quiet_panic_hook();
+        props::probe(id, j["tag"].as_str().unwrap_or(""), j["what"].as_str().unwrap_or(""));
+        std::process::exit(0);
+    }
+    if std::env::var("NVCHECK_CHILD").is_err() {
+        std::process::exit(supervise(&args));
+    }
+    if let Ok(p) = std::env::var("NVCHECK_JOURNAL") {
+        watch::open_journal(&p);
+    }
     let tier = match args[2].as_str() {
         "thorough" => Tier::Thorough,
         "quick" => Tier::Quick,
@@ -41,4 +55,61 @@ fn main() {
     report::install_quiet_panic_hook();
     let code = props::run(id, tier);
     std::process::exit(code);
+}
+
+/// Parent mode: run the check in a child process. Exit codes 0/1/2 of the child are passed on; if
+/// the child is killed (stack overflow, abort, OOM) the cases that were in flight are read from
+/// the crash journal and probed one by one in fresh subprocesses; a case that kills its probe is
+/// reported as a VIOLATION (the property family "never panics, aborts or loops").
+fn supervise(args: &[String]) -> i32 {
+    use std::process::Command;
+    let id = args[1].as_str();
+    let exe = std::env::current_exe().expect("current exe");
+    let _ = std::fs::create_dir_all("/verif/target");
+    let journal = format!("/verif/target/journal-{id}.bin");
+    let status = Command::new(&exe).args(&args[1..]).env("NVCHECK_CHILD", "1").env("NVCHECK_JOURNAL", &journal).status();
+    let status = match status {
+        Ok(s) => s,
+        Err(e) => {
+            println!("MACHINERY-FAILURE: cannot start the check process: {e}");
+            return 2;
+        }
+    };
+    if let Some(code) = status.code() {
+        if (0..=2).contains(&code) {
+            return code;
+        }
+    }
+    println!("check process for {id} died ({status}); probing the cases that were in flight");
+    let cands = watch::read_journal(&journal);
+    let mut seen = std::collections::HashSet::new();
+    for (n, (tag, what)) in cands.iter().enumerate() {
+        if !seen.insert((tag.clone(), what.clone())) {
+            continue;
+        }
+        let probe = format!("/verif/target/probe-{id}-{n}.json");
+        let _ = std::fs::write(&probe, serde_json::json!({"tag": tag, "what": what}).to_string());
+        let st = Command::new(&exe).args([id, "--probe", probe.as_str()]).env("NVCHECK_CHILD", "1").status();
+        let died = match st {
+            Ok(s) => s.code() != Some(0),
+            Err(_) => false,
+        };
+        if died {
+            let _ = std::fs::create_dir_all("/verif/replays");
+            let path = format!("/verif/replays/{id}-crash-{n}.json");
+            let body = serde_json::json!({"property": id, "summary": "the process is killed (stack overflow / abort) while handling this case",
+                "case": {"op": "crash", "tag": tag, "what": what}});
+            let _ = std::fs::write(&path, serde_json::to_string_pretty(&body).unwrap());
+            println!("VIOLATION property={id} replay={path}");
+            println!("  the process dies ({:?}) on case [{}] {:?}", st.map(|s| s.to_string()), tag, what);
+            let ev = serde_json::json!({"property_id": id, "tier": if args.get(2).map(|s| s.as_str()) == Some("thorough") { "thorough" } else { "quick" },
+                "seed": 0, "level": "model_checking", "wall_s": 0.0, "violations": 1,
+                "coverage": {"evaluations": cands.len(), "distinct_nontrivial": 0, "exhaustive": false,
+                    "samples": [{"crashing_case": what}], "rule": "the check process was killed; in-flight cases from the crash journal were probed in subprocesses"}});
+            let _ = std::fs::write(format!("/verif/evidence/{id}.json"), serde_json::to_string_pretty(&ev).unwrap());
+            return 1;
+        }
+    }
+    println!("MACHINERY-FAILURE: the check process died ({status}) and none of the {} journaled cases reproduces it", cands.len());
+    2
 }
